@@ -14,6 +14,11 @@ Clauses
   fixed-point
   precondition-api-model-matches-description    the model built through the API is not the described one (nothing else
                                                 is evaluated for that case)
+The item `key-layouts` varies how the key attributes of associations are spelled, ordered and shared: composite keys
+whose names sort differently on the two sides or are listed / declared in different orders, and several associations
+reaching one class through different identifiers with equal, overlapping or crossed referential names.
+Associations are compared by their set of (referential attribute, identifying attribute) pairs -- the order in which an
+association lists its pairs carries no meaning.
 In the items `identifier-R-digits` and `phrase-with-quote` every clause is prefixed with the item name: these are the
 known domain edges of DESIGN section 6 (K2) and are kept apart from the rest of the space.
 """
@@ -386,6 +391,188 @@ def inferred_cases(quick):
                     yield (list(tt), rnd, route)
 
 
+# --------------------------------------------------------------------------------------------------- key layouts
+
+PERMS = {1: [(0,)], 2: list(itertools.permutations(range(2))), 3: list(itertools.permutations(range(3)))}
+ID_NAMES = ['Ka', 'Kb', 'Kc']            # identifying attributes of the referred class, in declaration order
+ALT_NAMES = ['Aa', 'Ab']                 # attributes of a second identifier of the same class
+REF_POOLS = {'F': ['Fa', 'Fb', 'Fc'],    # referential names that sort like / unlike the identifying names they refer to
+             'K': ID_NAMES}              # referential attributes spelled like identifying attributes (of another position)
+LAYOUT_TYPES = [('INTEGER', 'STRING', 'UNIQUE_ID'), ('STRING', 'STRING', 'STRING'), ('REAL', 'BOOLEAN', 'INTEGER'),
+                ('UNIQUE_ID', 'UNIQUE_ID', 'INTEGER'), ('BOOLEAN', 'STRING', 'REAL')]
+LAYOUT_CARDS = [('MC', '1'), ('1C', '1C'), ('M', '1C'), ('MC', 'MC'), ('1', '1'), ('M', 'M')]
+POPS = ('all', 'partial', 'none')
+
+
+def link_pattern(pop, smany, nsrc, ntgt, shift=0):
+    """links referring index -> referred index: every referring row has at most one referred row, a referred row has
+    several referring rows only when the referring end is many."""
+    if pop == 'none' or ntgt == 0 or nsrc == 0:
+        return []
+    if pop == 'partial':
+        return [(1 % nsrc, shift % ntgt)]
+    if smany:
+        return [(i, (shift % ntgt if i < 2 else (1 + shift) % ntgt)) for i in range(nsrc)]
+    return [(i, (i + shift) % ntgt) for i in range(min(nsrc, ntgt))]
+
+
+def layout_desc(shape, types, sigma, pi, tau, pool, scard, tcard, idv, pop, phr):
+    """One association over a composite key whose attribute names are laid out differently on the two sides.
+    The identifying attributes Ka, Kb(, Kc) are declared in this order; the referential attribute that refers to the
+    i-th of them is called REF_POOLS[pool][sigma[i]] (so sorting the names of one side permutes them differently from
+    the other side unless sigma is the identity); the association lists its key pairs in the order pi; the referring
+    class declares its referential attributes in the order tau."""
+    n = len(types)
+    idn = ID_NAMES[:n]
+    refn = [REF_POOLS[pool][sigma[i]] for i in range(n)]
+    keys = key_tuples(types)
+    sp, tp = PHRASES[phr]
+    tkeys, skeys = [idn[i] for i in pi], [refn[i] for i in pi]
+    ref_decl = [[refn[i], types[i]] for i in tau]
+    ids, rows = [], []
+    if shape == 'simple':
+        classes = [dict(kind='T', attrs=[[k, t] for k, t in zip(idn, types)] + [['Name', 'STRING']]),
+                   dict(kind='S', attrs=[['Sid', 'INTEGER']] + ref_decl)]
+        rows += [dict(kind='T', values=list(kt) + ['t%d' % j]) for j, kt in enumerate(keys)]
+        rows += [dict(kind='S', values=[j + 1] + [None] * n) for j in range(3)]
+        assocs = [dict(rel_id='R11', source=_end('S', skeys, scard, sp), target=_end('T', tkeys, tcard, tp))]
+        links = [[0, s, t] for s, t in link_pattern(pop, 'M' in scard, 3, len(keys))]
+        if idv >= 1:
+            ids.append(dict(kind='T', name='I1', attrs=[idn[i] for i in tau]))
+        if idv >= 2:
+            ids.append(dict(kind='S', name='I1', attrs=['Sid']))
+    elif shape == 'reflexive':
+        if pool != 'F':
+            raise ValueError('a class cannot declare an attribute name twice')
+        if not sp and not tp:
+            sp, tp = 'succeeds', 'precedes'
+        classes = [dict(kind='N', attrs=[[k, t] for k, t in zip(idn, types)] + ref_decl)]
+        rows += [dict(kind='N', values=list(kt) + [None] * n) for kt in keys]
+        assocs = [dict(rel_id='R12', source=_end('N', skeys, scard, sp), target=_end('N', tkeys, tcard, tp))]
+        nk = len(keys)
+        if pop == 'none':
+            links = []
+        elif nk == 1:
+            links = [[0, 0, 0]]
+        elif pop == 'partial':
+            links = [[0, 1, 0]]
+        else:
+            links = [[0, i, 0] for i in range(1, nk)] if 'M' in scard else [[0, i, i - 1] for i in range(1, nk)]
+        if idv >= 1:
+            ids.append(dict(kind='N', name='I1', attrs=[idn[i] for i in tau]))
+    else:
+        raise ValueError(shape)
+    return dict(classes=classes, assocs=assocs, ids=ids, rows=rows, links=links)
+
+
+NAMINGS = ('distinct', 'equal', 'equal-reversed', 'overlap', 'crossed', 'as-referred', 'one-class')
+SEVERAL_TYPES = [('INTEGER', 'STRING', 'INTEGER', 'STRING'), ('UNIQUE_ID', 'UNIQUE_ID', 'UNIQUE_ID', 'UNIQUE_ID'),
+                 ('STRING', 'REAL', 'UNIQUE_ID', 'BOOLEAN'), ('REAL', 'INTEGER', 'STRING', 'INTEGER')]
+
+
+def several_names(naming, n1, n2):
+    """Names of the referential attributes of the two referring ends, or None when the naming needs longer keys."""
+    X = ['Xa', 'Xb', 'Xc']
+    if naming == 'distinct':
+        return ['P_' + k for k in ID_NAMES[:n1]], ['Q_' + k for k in ALT_NAMES[:n2]]
+    if naming == 'equal':                      # equal names (a prefix of the longer list when the lengths differ)
+        return X[:n1], X[:n2]
+    if naming == 'equal-reversed':             # the same set of names, listed the other way round
+        return (X[:n1], X[:n2][::-1]) if n1 == n2 == 2 else None
+    if naming == 'overlap':                    # one name in common
+        return (X[:n1], X[1:1 + n2]) if n1 == 2 else None
+    if naming == 'crossed':                    # each end spells its referentials like the *other* identifier
+        return ALT_NAMES[:n1], ID_NAMES[:n2]
+    if naming in ('as-referred', 'one-class'):
+        return ID_NAMES[:n1], ALT_NAMES[:n2]
+    raise ValueError(naming)
+
+
+def several_desc(n1, n2, types, naming, first, third, scard, tcard, idv, pop, phr):
+    """Several associations into one class T through different identifiers: R21 reaches T over (Ka..), R22 over (Aa..),
+    optionally R23 over (Ka..) again; the referring ends are classes P, Q (, W) -- or one class S for 'one-class' --
+    whose referential attributes are named as `naming` says.  first: which association is defined first."""
+    ktypes, atypes = list(types[:n1]), list(types[2:2 + n2])
+    pn, qn = several_names(naming, n1, n2)
+    kt = key_tuples(ktypes)
+    at = key_tuples(atypes)
+    at = at[1:] + at[:1]                        # the two identifiers of one row differ also where their types agree
+    nt = min(len(kt), len(at))
+    sp, tp = PHRASES[phr]
+    T = dict(kind='T', attrs=[[k, t] for k, t in zip(ID_NAMES, ktypes)] + [[k, t] for k, t in zip(ALT_NAMES, atypes)] +
+                             [['Name', 'STRING']])
+    rows = [dict(kind='T', values=list(kt[j]) + list(at[j]) + ['t%d' % j]) for j in range(nt)]
+    if naming == 'one-class':
+        classes = [T, dict(kind='S', attrs=[['Sid', 'INTEGER']] + [[r, t] for r, t in zip(pn + qn, ktypes + atypes)])]
+        rows += [dict(kind='S', values=[j + 1] + [None] * (n1 + n2)) for j in range(3)]
+        pk = qk = 'S'
+    else:
+        classes = [T, dict(kind='P', attrs=[['Pid', 'INTEGER']] + [[r, t] for r, t in zip(pn, ktypes)]),
+                   dict(kind='Q', attrs=[[r, t] for r, t in zip(qn, atypes)] + [['Qid', 'INTEGER']])]
+        rows += [dict(kind='P', values=[j + 1] + [None] * n1) for j in range(3)]
+        rows += [dict(kind='Q', values=[None] * n2 + [j + 10]) for j in range(3)]
+        pk, qk = 'P', 'Q'
+    smany = 'M' in scard
+    a1 = dict(rel_id='R21', source=_end(pk, pn, scard, sp), target=_end('T', ID_NAMES[:n1], tcard, tp))
+    a2 = dict(rel_id='R22', source=_end(qk, qn, scard, sp), target=_end('T', ALT_NAMES[:n2], tcard, tp))
+    l1, l2 = link_pattern(pop, smany, 3, nt), link_pattern(pop, smany, 3, nt, 1)
+    assocs, links = [a1, a2], [[0, s, t] for s, t in l1] + [[1, s, t] for s, t in l2]
+    if first:
+        assocs, links = [a2, a1], [[1, s, t] for s, t in l1] + [[0, s, t] for s, t in l2]
+    if third and naming != 'one-class':
+        classes.append(dict(kind='W', attrs=[[r, t] for r, t in zip(pn, ktypes)] + [['Wid', 'INTEGER']]))
+        rows += [dict(kind='W', values=[None] * n1 + [j + 20]) for j in range(2)]
+        assocs.append(dict(rel_id='R23', source=_end('W', pn, scard, sp), target=_end('T', ID_NAMES[:n1], tcard, tp)))
+        links += [[2, s, t] for s, t in link_pattern(pop, smany, 2, nt, 2)]
+    ids = []
+    if idv >= 1:
+        ids += [dict(kind='T', name='I1', attrs=ID_NAMES[:n1]), dict(kind='T', name='I2', attrs=ALT_NAMES[:n2])]
+    if idv >= 2:
+        ids += [dict(kind='T', name='I3', attrs=['Name'])]
+    return dict(classes=classes, assocs=assocs, ids=ids, rows=rows, links=links)
+
+
+def layout_cases(quick):
+    """('layout', ...) and ('several', ...) cases, each ending with the route."""
+    k = 0
+    pops = POPS[:2] if quick else POPS
+    for n in (2, 3):
+        perms = PERMS[n]
+        for si, sigma in enumerate(perms):
+            for pj, pi in enumerate(perms):
+                taus = perms if n == 2 and not quick else [perms[(si + pj + d) % len(perms)] for d in ((0,) if quick else (0, 2))]
+                for tau in taus:
+                    for pool, shape in (('F', 'simple'), ('F', 'reflexive'), ('K', 'simple')):
+                        for types in (LAYOUT_TYPES[:3] if quick else LAYOUT_TYPES):
+                            for pop in POPS[:2]:
+                                k += 1
+                                scard, tcard = LAYOUT_CARDS[k % len(LAYOUT_CARDS)]
+                                routes = (STRING_ROUTES[k % 4], FILE_ROUTES[k % 3]) if quick else ROUTES
+                                for route in routes:
+                                    yield ('layout', shape, list(types[:n]), list(sigma), list(pi), list(tau), pool, scard, tcard,
+                                           k % 3, pop, (k // 3) % 5, route)
+    for n1, n2 in ((1, 1), (2, 2), (1, 2), (2, 1)):
+        for naming in NAMINGS:
+            if several_names(naming, n1, n2) is None:
+                continue
+            for first in (0, 1):
+                for types in (SEVERAL_TYPES[:3] if quick else SEVERAL_TYPES):
+                    for pop in pops:
+                        for idv in ((None,) if quick else (0, 1, 2)):
+                            k += 1
+                            scard, tcard = LAYOUT_CARDS[k % len(LAYOUT_CARDS)]
+                            routes = (STRING_ROUTES[k % 4], FILE_ROUTES[k % 3]) if quick else ROUTES
+                            for route in routes:
+                                yield ('several', n1, n2, list(types), naming, first, (k // 2) % 2, scard, tcard,
+                                       k % 3 if idv is None else idv, pop, (k // 3) % 5, route)
+
+
+def layout_case_desc(case):
+    if case[0] == 'layout':
+        return layout_desc(*case[1:-1])
+    return several_desc(*case[1:-1])
+
+
 # --------------------------------------------------------------------------------------------------- items
 
 def well_formed(desc):
@@ -467,6 +654,21 @@ def inferred_schema(ctx):
         ctx.note('domain of the CREATE-TABLE-less route: positional names _i, no BOOLEAN, >=1 row per class, no '
                  'associations or identifiers (their statements need classes before any row is read)')
     _drive(ctx, inferred_cases(ctx.quick), lambda c: inferred_desc(c[0], c[1]), lambda c: c[2])
+
+
+@item('key-layouts', stands_in_for=STANDS_IN + ['xtuml.persist.serialize_association', 'xtuml.load.ModelLoader.populate_connections'],
+      shards=2, weight=2,
+      bound='(a) one association over a 2- or 3-attribute key, simple and reflexive: every pairing of referential to '
+            'identifying names (referential names sorting like / unlike the identifying ones, or spelled like identifying '
+            'attributes of another position) x every listing order of the key pairs in the association, declaration order '
+            'of the referential attributes rotating (thorough: all for 2, 2 for 3 attributes), 3 (thorough 5) key typings; '
+            '(b) two or three associations into one class through two different identifiers of 1 or 2 attributes each, '
+            'referential names of the referring ends distinct / equal / equal in reverse order / overlapping / spelled like '
+            'the other identifier / like the referred attributes / in one referring class, either association defined '
+            'first, 3 (thorough 4) typings; populations {all, partial} linked (thorough, (b): also none); 6 cardinality pairs, '
+            'identifiers and phrases rotating; quick 2 rotating routes, thorough 7')
+def key_layouts(ctx):
+    _drive(ctx, layout_cases(ctx.quick), layout_case_desc, lambda c: c[-1])
 
 
 @item('identifier-R-digits', stands_in_for=['xtuml.load.ModelLoader.t_RELID'], shards=1,
